@@ -146,6 +146,19 @@ CLAIMED = {
                  "asserted. Percentile cases with p*n/100 within 1e-9 of an integer for fractional p are skipped. stats1 -s/-w, ewma, slwin, mad, skewness, kurtosis not yet covered."),
         "design_ref": "DESIGN.md section 4 C10",
     },
+    "C08": {
+        "level": "exploration",
+        "technique": "property-based testing: exhaustive operator x operand-kind matrices with a rule-based oracle and model-free commutativity/consistency relations; Hypothesis-generated assignment programs and accumulation streams against a Python fold",
+        "text": ("Exhaustive: 35 binary operators/functions x 11 x 11 operand kinds (int, float, boolean, empty, string, array, map, function, error, JSON null, "
+                 "absent): absent is the identity, absent op absent = absent, empty-with-number for + - * min max, error propagation with scalars, result kind "
+                 "of commutative operators independent of operand order; variadic min/max with 0-3 arguments over 10 kinds (kind independent of argument "
+                 "order, absent identity, min/max symmetric); 22 math-library functions of absent; is_*/typeof/asserting_* consistency on every representative. "
+                 "Hypothesis: absent right-hand sides (11 forms) assigned with = += *= -= ??= to 12 lvalue kinds change nothing; @sum[$a] += $x / counts / "
+                 "min-max folds / .= over heterogeneous JSON and CSV streams (missing and empty cells) == Python fold; `t op= v` == `t = t op v` for 19 operators."),
+        "note": ("Rule table transcribed from reference-main-null-data.md and the statement. Underdetermined (both accepted, counted): absent/empty on the left of - and .- "
+                 "(docs say both 'returns the other operand' and 'acts like zero'), max with an empty operand (statement vs documented example). One representative value per kind."),
+        "design_ref": "DESIGN.md section 4 C08",
+    },
 }
 
 NOT_YET = "check not built yet in this session (see DESIGN.md section 8 build order); will be claimed when its sub-checks run"
